@@ -95,6 +95,10 @@ class Case:
             X = mutate_design(rng, X, s["mutate_X"])
         self.groups = C.make_groups(rng, p, style=s.get("group_style", "contig")) if not s.get("single_group") \
             else [np.arange(p)]
+        if s.get("zero_group"):
+            gi = {"first": 0, "middle": len(self.groups) // 2, "last": len(self.groups) - 1}[s["zero_group"]]
+            X = np.array(X, copy=True, order="F")
+            X[:, self.groups[gi]] = 0.0
         self.n_tasks = int(s.get("n_tasks", 3))
         y = C.make_target(rng, X, C.TARGET_KIND[dfn], n_tasks=self.n_tasks, ties=s.get("ties", True),
                           noise=s.get("noise", 0.5))
